@@ -17,10 +17,28 @@ impl SerdeParser {
 
         for attr in attrs {
             if attr.path().is_ident("serde") {
-                if let Ok(tokens) = syn::parse2::<syn::MetaList>(attr.meta.to_token_stream()) {
-                    let tokens_str = tokens.tokens.to_string();
+                // Walk the attribute's own structure: a key is `rename_all` only if it is
+                // the meta item of that name, not if the text occurs inside another value
+                let mut rename_all = None;
+                let parsed = attr.parse_nested_meta(|meta| {
+                    if meta.path.is_ident("rename_all") {
+                        if let Some(value) = Self::string_value(&meta)? {
+                            rename_all = RenameRule::from_rename_all_str(&value).ok();
+                        }
+                    } else {
+                        Self::skip_value(&meta)?;
+                    }
+                    Ok(())
+                });
 
-                    // Parse rename_all = "convention"
+                if parsed.is_ok() {
+                    if rename_all.is_some() {
+                        result.rename_all = rename_all;
+                    }
+                } else if let Ok(tokens) = syn::parse2::<syn::MetaList>(attr.meta.to_token_stream())
+                {
+                    // Unusual attribute syntax: fall back to scanning the token text
+                    let tokens_str = tokens.tokens.to_string();
                     if let Some(convention) = self.parse_rename_all(&tokens_str) {
                         result.rename_all = Some(convention);
                     }
@@ -40,7 +58,34 @@ impl SerdeParser {
 
         for attr in attrs {
             if attr.path().is_ident("serde") {
-                if let Ok(tokens) = syn::parse2::<syn::MetaList>(attr.meta.to_token_stream()) {
+                // Walk the attribute's own structure: `skip` and `rename` count only as meta
+                // items of that name. Text that merely contains these words - skip_serializing_if,
+                // default = "skip_x", alias = "rename" - must not change anything
+                let mut rename = None;
+                let mut skip = false;
+                let parsed = attr.parse_nested_meta(|meta| {
+                    if meta.path.is_ident("skip") {
+                        skip = true;
+                    } else if meta.path.is_ident("rename") {
+                        if let Some(value) = Self::string_value(&meta)? {
+                            rename = Some(value);
+                        }
+                    } else {
+                        Self::skip_value(&meta)?;
+                    }
+                    Ok(())
+                });
+
+                if parsed.is_ok() {
+                    if skip {
+                        result.skip = true;
+                    }
+                    if rename.is_some() {
+                        result.rename = rename;
+                    }
+                } else if let Ok(tokens) = syn::parse2::<syn::MetaList>(attr.meta.to_token_stream())
+                {
+                    // Unusual attribute syntax: fall back to scanning the token text
                     let tokens_str = tokens.tokens.to_string();
 
                     // Check for skip flag
@@ -57,6 +102,46 @@ impl SerdeParser {
         }
 
         result
+    }
+
+    /// The string of `key = "value"`, or of `key(serialize = "value", ...)`; consumes the value
+    fn string_value(meta: &syn::meta::ParseNestedMeta) -> syn::Result<Option<String>> {
+        if meta.input.peek(syn::Token![=]) {
+            let expr: syn::Expr = meta.value()?.parse()?;
+            if let syn::Expr::Lit(syn::ExprLit {
+                lit: syn::Lit::Str(lit),
+                ..
+            }) = expr
+            {
+                return Ok(Some(lit.value()));
+            }
+            return Ok(None);
+        }
+        let mut serialize = None;
+        if meta.input.peek(syn::token::Paren) {
+            meta.parse_nested_meta(|inner| {
+                let is_serialize = inner.path.is_ident("serialize");
+                if let Some(value) = Self::string_value(&inner)? {
+                    if is_serialize {
+                        serialize = Some(value);
+                    }
+                }
+                Ok(())
+            })?;
+        }
+        Ok(serialize)
+    }
+
+    /// Consume the `= value` or `(...)` part of a meta item this parser does not interpret
+    fn skip_value(meta: &syn::meta::ParseNestedMeta) -> syn::Result<()> {
+        if meta.input.peek(syn::Token![=]) {
+            let _: syn::Expr = meta.value()?.parse()?;
+        } else if meta.input.peek(syn::token::Paren) {
+            let content;
+            syn::parenthesized!(content in meta.input);
+            let _: proc_macro2::TokenStream = content.parse()?;
+        }
+        Ok(())
     }
 
     /// Parse rename_all value like "camelCase", "snake_case", "PascalCase", etc. to
